@@ -246,8 +246,6 @@ package flags
 //@   traced
 //@ assumed func (option *Option) call(value *string) (err error)
 //@   traced
-//@   at call convert #2: key == strings.SplitN(val, ":", 2)[0]
-//@   at call convert #3: value == ite(len(strings.SplitN(val, ":", 2)) == 2, strings.SplitN(val, ":", 2)[1], "")
 //@   ensures is(err, *Error) ==> as(err, *Error) != nil
 //@   ensures !isTyped(err, ErrUnknownFlag)
 //@ assumed func (p *Parser) marshalError(option *Option, err error) (e *Error)
@@ -1117,12 +1115,14 @@ package flags
 // with the WIDTH OF THE FIELD'S TYPE and the BASE OF THE TAG, or stores nothing
 // and returns the parser's error.
 //@ func convert(val string, retval reflect.Value, options multiTag) (err error)
-//@   props C11 C04
+//@   props C11 C04 C01
 //@   traced
 //@   let tp := retval.Type()
 //@   let k := retval.Type().Kind()
 //@   let um := fst(convertUnmarshal(val, retval))
 //@   let scalar := !um && tp != durationT()
+//@   at[C01,C11] call convert #2: key == strings.SplitN(val, ":", 2)[0]
+//@   at[C01,C11] call convert #3: value == ite(len(strings.SplitN(val, ":", 2)) == 2, strings.SplitN(val, ":", 2)[1], "")
 //@   ensures[C11] um ==> err == snd(convertUnmarshal(val, retval)) && storesUnchanged()
 //@   ensures[C11] !um && tp == durationT() ==> (err == snd(time.ParseDuration(val))) && (err == nil ==> ncalls(reflect.Value.SetInt) == old(ncalls(reflect.Value.SetInt)) + 1 && callarg(reflect.Value.SetInt, old(ncalls(reflect.Value.SetInt)), 0) == retval && callarg(reflect.Value.SetInt, old(ncalls(reflect.Value.SetInt)), 1) == int64(fst(time.ParseDuration(val)))) && (err != nil ==> storesUnchanged())
 //@   ensures[C11] scalar && k == reflect.String ==> err == nil && ncalls(reflect.Value.SetString) == old(ncalls(reflect.Value.SetString)) + 1 && callarg(reflect.Value.SetString, old(ncalls(reflect.Value.SetString)), 0) == retval && callarg(reflect.Value.SetString, old(ncalls(reflect.Value.SetString)), 1) == val
